@@ -102,7 +102,7 @@ var encFormNames = []string{"256", "nil", "short"}
 
 const (
 	numLigPats  = 7
-	numKernPats = 6
+	numKernPats = 7
 )
 
 var ligPool = []afmcodec.Lig{{Succ: "i", Lig: "fi"}, {Succ: "l", Lig: "fl"}, {Succ: "A", Lig: "f_i.alt"}}
@@ -147,6 +147,9 @@ func kernPairs(pat int, names []string) [][2]string {
 		return [][2]string{{first, first}, {first, first}}
 	case 5:
 		return [][2]string{{"X", "Y.alt"}, {first, "X"}, {"Y.alt", first}}
+	case 6:
+		// single-token names with characters that matter to formatted output
+		return [][2]string{{"%", first}, {first, "per%cent"}, {"a%sb", "100%"}, {"%d", "%%"}}
 	}
 	return nil
 }
@@ -747,13 +750,13 @@ func families(tier string) []mc.Family {
 		// ligature x kerning combinations: every pattern of one kind with the
 		// empty pattern of the other, plus three mixed ones
 		wideLib := append(shapes(shapeSpec{sets: all14, codePool: []int{0, 65}, ligPats: seq(numLigPats), kernPats: []int{0}}),
-			shapes(shapeSpec{sets: all14, codePool: []int{0, 65}, ligPats: []int{0}, kernPats: []int{1, 2, 3, 4, 5}})...)
+			shapes(shapeSpec{sets: all14, codePool: []int{0, 65}, ligPats: []int{0}, kernPats: []int{1, 2, 3, 4, 5, 6}})...)
 		wideLib = append(wideLib, shapes(shapeSpec{sets: all14, codePool: []int{0, 65}, ligPats: []int{5}, kernPats: []int{3}})...)
 		deepLib := shapes(shapeSpec{sets: coreSets(false), codePool: []int{65, 66, 67, 68}, encFilter: ascending, ligPats: []int{5}, kernPats: []int{3}})
-		wideIndep := shapes(shapeSpec{sets: all14, codePool: []int{65}, ligPats: []int{0, 5}, kernPats: []int{0, 3}})
+		wideIndep := shapes(shapeSpec{sets: all14, codePool: []int{65}, ligPats: []int{0, 5}, kernPats: []int{0, 3, 6}})
 		deepIndep := shapes(shapeSpec{sets: coreSets(false)[:3], codePool: []int{65, 66}, encFilter: ascending, ligPats: []int{5}, kernPats: []int{3}})
 		return []mc.Family{
-			family("lib-write-read/wide", wideLib, 1, libBody, b[0], "all glyph sets of 1-4 names from {.notdef,A,B,f_i.alt,space} x all injective partial encodings over codes {0,65} incl. nil vector x (7 ligature patterns (0-3 per glyph) without kerning + 5 kerning patterns (1-3 pairs, duplicates, absent glyphs) without ligatures + ligatures 0..3 per glyph with 3 kerning pairs)"),
+			family("lib-write-read/wide", wideLib, 1, libBody, b[0], "all glyph sets of 1-4 names from {.notdef,A,B,f_i.alt,space} x all injective partial encodings over codes {0,65} incl. nil vector x (7 ligature patterns (0-3 per glyph) without kerning + 6 kerning patterns (1-3 pairs, duplicates, absent glyphs) without ligatures + ligatures 0..3 per glyph with 3 kerning pairs)"),
 			family("lib-write-read/pairs", deepLib, 2, libBody, b[1], "4 core glyph sets x {nothing encoded, nil vector, everything encoded}, ligatures 0..3 per glyph, 3 kerning pairs"),
 			family("indep-read/wide", wideIndep, 1, indepBody, b[2], "all glyph sets of 1-4 names x encodings with at most one glyph at code 65 x ligature patterns {none, 0..3 per glyph} x kerning {none, 3 pairs}"),
 			family("indep-read/pairs", deepIndep, 2, indepBody, b[3], "glyph sets {A}, {.notdef,A}, {A,B}; everything encoded ascending, nothing encoded, nil vector; ligatures 0..3 per glyph; 3 kerning pairs"),
@@ -763,8 +766,8 @@ func families(tier string) []mc.Family {
 	b := []time.Duration{90 * time.Second, 110 * time.Second, 80 * time.Second, 80 * time.Second, 130 * time.Second, 100 * time.Second}
 	codes3 := []int{0, 65, 255}
 	wideLib := append(shapes(shapeSpec{sets: all14, codePool: codes3, ligPats: seq(numLigPats), kernPats: []int{0}}),
-		shapes(shapeSpec{sets: all14, codePool: codes3, ligPats: []int{0, 5}, kernPats: []int{1, 2, 3, 4, 5}})...)
-	for _, sh := range shapes(shapeSpec{sets: all14, codePool: codes3, ligPats: []int{0, 5}, kernPats: []int{0, 3}, short: true}) {
+		shapes(shapeSpec{sets: all14, codePool: codes3, ligPats: []int{0, 5}, kernPats: []int{1, 2, 3, 4, 5, 6}})...)
+	for _, sh := range shapes(shapeSpec{sets: all14, codePool: codes3, ligPats: []int{0, 5}, kernPats: []int{0, 3, 6}, short: true}) {
 		if sh.encForm == 2 {
 			wideLib = append(wideLib, sh)
 		}
@@ -776,14 +779,14 @@ func families(tier string) []mc.Family {
 	tripleLib = append(tripleLib, shapes(shapeSpec{sets: [][]string{{"A", "B"}}, codePool: []int{65, 66}, encFilter: func(n []string, c []int) bool { return c[0] == 65 && c[1] == 66 }, ligPats: []int{1}, kernPats: []int{1}})...)
 	tripleIndep := shapes(shapeSpec{sets: [][]string{{"A"}}, codePool: []int{65}, encFilter: lastAt65, ligPats: []int{2}, kernPats: []int{1}})
 	wideIndep := append(shapes(shapeSpec{sets: all14, codePool: []int{0, 65}, ligPats: seq(numLigPats), kernPats: []int{0}}),
-		shapes(shapeSpec{sets: all14, codePool: []int{0, 65}, ligPats: []int{0, 5}, kernPats: []int{1, 2, 3, 4, 5}})...)
+		shapes(shapeSpec{sets: all14, codePool: []int{0, 65}, ligPats: []int{0, 5}, kernPats: []int{1, 2, 3, 4, 5, 6}})...)
 	deepIndep := append(shapes(shapeSpec{sets: coreSets(true), codePool: []int{65, 66, 67, 68}, encFilter: ascending, ligPats: []int{5}, kernPats: []int{3}}),
 		shapes(shapeSpec{sets: coreSets(true), codePool: []int{65, 66, 67, 68}, encFilter: ascending, ligPats: []int{0}, kernPats: []int{0}})...)
 	return []mc.Family{
-		family("lib-write-read/wide", wideLib, 1, libBody, b[0], "all glyph sets of 1-4 names from {.notdef,A,B,f_i.alt,space} x all injective partial encodings over codes {0,65,255} incl. nil vector x (7 ligature patterns without kerning + ligature patterns {none, 0..3 per glyph} x 5 kerning patterns), plus the same encodings as vectors cut after the highest code x ligatures {none, 0..3} x kerning {none, 3 pairs}"),
+		family("lib-write-read/wide", wideLib, 1, libBody, b[0], "all glyph sets of 1-4 names from {.notdef,A,B,f_i.alt,space} x all injective partial encodings over codes {0,65,255} incl. nil vector x (7 ligature patterns without kerning + ligature patterns {none, 0..3 per glyph} x 6 kerning patterns), plus the same encodings as vectors cut after the highest code x ligatures {none, 0..3} x kerning {none, 3 pairs}"),
 		family("lib-write-read/pairs", deepLib, 2, libBody, b[1], "all glyph sets of 1-4 names x {nothing encoded, nil vector, everything encoded ascending from 65} with ligatures 0..3 per glyph and 3 kerning pairs, plus 8 core glyph sets without ligatures and kerning"),
 		family("lib-write-read/triples", tripleLib, 3, libBody, b[2], "glyph sets {A}, {.notdef,A} with A at code 65, 2 ligatures, 2 kerning pairs; {A,B} at codes 65, 66 with 1 ligature and 1 kerning pair"),
-		family("indep-read/wide", wideIndep, 1, indepBody, b[3], "all glyph sets of 1-4 names x all injective partial encodings over codes {0,65} incl. nil vector x (7 ligature patterns without kerning + ligature patterns {none, 0..3 per glyph} x 5 kerning patterns)"),
+		family("indep-read/wide", wideIndep, 1, indepBody, b[3], "all glyph sets of 1-4 names x all injective partial encodings over codes {0,65} incl. nil vector x (7 ligature patterns without kerning + ligature patterns {none, 0..3 per glyph} x 6 kerning patterns)"),
 		family("indep-read/pairs", deepIndep, 2, indepBody, b[4], "8 core glyph sets x {nothing encoded, nil vector, everything encoded ascending} x {(ligatures 0..3 per glyph, 3 kerning pairs), (no ligatures, no kerning)}"),
 		family("indep-read/triples", tripleIndep, 3, indepBody, b[5], "glyph set {A} at code 65, 2 ligatures, 1 kerning pair"),
 	}
